@@ -201,6 +201,69 @@ def create_on_trees(ctx, tmp):
                           {"kind": "create-tree", "label": label, "files": files, "argv": ["imdl", "torrent", "create", "--input", "d", "--output", "-"] + extra,
                            "counted_bytes": counted, "expected": want, "rc": rc, "stderr": err.decode("utf-8", "replace")[-300:]})
         shutil.rmtree(d, ignore_errors=True)
+    def recorded(out):
+        """(piece length, total of the listed lengths) of a written torrent"""
+        try:
+            v, _ = lib.bdecode_strict(out)
+            info = lib.dget(v, "info")
+            fl = lib.dget(info, "files")
+            total = lib.dget(info, "length") if fl is None else sum(lib.dget(f, "length") for f in fl)
+            return lib.dget(info, "piece length"), total
+        except Exception:
+            return None, None
+
+    # a symlinked MEMBER followed with --follow-symlinks counts with the size of its target (seeded change C15-8)
+    d = tempfile.mkdtemp(dir=tmp)
+    mk(os.path.join(d, "in", "small.bin"), 1000)
+    mk(os.path.join(d, "elsewhere", "big.bin"), 5 * MIB)
+    os.symlink(os.path.join("..", "elsewhere", "big.bin"), os.path.join(d, "in", "link.bin"))
+    for extra, counted in ((["--follow-symlinks"], 5 * MIB + 1000), ([], 1000)):
+        rc, out, err = ctx.imdl(["torrent", "create", "--input", "in", "--output", "-"] + extra, cwd=d, timeout=300)
+        ctx.cov["evaluations"] += 1
+        ctx.count("create_on_trees")
+        ctx.distinct(("create-symlinked-member", tuple(extra)))
+        pl, total = recorded(out) if rc == 0 else (None, None)
+        if pl != oracle_pick(counted) or total != counted:
+            ctx.violation("oracle-failure",
+                          "create %s on a directory holding a 1000-byte file and a link to a 5 MiB file: recorded piece length %r for %r "
+                          "listed bytes (rc %d), expected %d for %d" % (" ".join(extra) or "(links not followed)", pl, total, rc, oracle_pick(counted), counted),
+                          {"kind": "create-symlinked-member", "argv_extra": extra, "rc": rc, "stderr": err.decode("utf-8", "replace")[-300:]})
+    shutil.rmtree(d, ignore_errors=True)
+    # forced re-creation onto a torrent that lies INSIDE the input directory: the piece length belongs to the content the new
+    # torrent records, whatever stood at the output path when the tree was measured (seeded change C15-7)
+    d = tempfile.mkdtemp(dir=tmp)
+    mk(os.path.join(d, "in", "payload.bin"), 2 * MIB - 100)
+    argv = ["torrent", "create", "--input", "in", "--output", "in/self.torrent"]
+    rc1, _, err1 = ctx.imdl(argv, cwd=d, timeout=300)
+    rc2, _, err2 = ctx.imdl(argv + ["--force"], cwd=d, timeout=300)
+    ctx.cov["evaluations"] += 1
+    ctx.count("create_on_trees")
+    ctx.distinct(("create-force-inside-input",))
+    try:
+        pl, total = recorded(open(os.path.join(d, "in", "self.torrent"), "rb").read())
+    except OSError:
+        pl, total = None, None
+    if rc1 != 0 or rc2 != 0 or pl is None or pl != oracle_pick(total):
+        ctx.violation("oracle-failure",
+                      "create --force onto a torrent inside its own input directory (exit %d then %d): recorded piece length %r for %r listed "
+                      "bytes, the published rule gives %r" % (rc1, rc2, pl, total, None if total is None else oracle_pick(total)),
+                      {"kind": "create-force-inside-input", "argv": ["imdl"] + argv + ["--force"], "stderr": err2.decode("utf-8", "replace")[-300:]})
+    shutil.rmtree(d, ignore_errors=True)
+    # standard input: the size is not known in advance, the automatic choice is still a power of two within the documented
+    # bounds (seeded change C15-9: a kib / mib slip in the default)
+    for n in (0, 5, 3 * MIB):
+        d = tempfile.mkdtemp(dir=tmp)
+        rc, out, err = ctx.imdl(["torrent", "create", "--input", "-", "--name", "n", "--output", "-"], cwd=d, stdin=b"x" * n, timeout=300)
+        ctx.cov["evaluations"] += 1
+        ctx.count("create_from_stdin_automatic")
+        ctx.distinct(("create-stdin", n))
+        pl, total = recorded(out) if rc == 0 else (None, None)
+        if pl is None or pl & (pl - 1) or not (16 * KIB <= pl <= 16 * MIB) or total != n:
+            ctx.violation("oracle-failure",
+                          "create from standard input (%d bytes) without --piece-length: recorded piece length %r (rc %d); an automatic choice "
+                          "is a power of two between 16 KiB and 16 MiB" % (n, pl, rc),
+                          {"kind": "create-stdin", "bytes": n, "rc": rc, "stderr": err.decode("utf-8", "replace")[-300:]})
+        shutil.rmtree(d, ignore_errors=True)
     for size in (2 * MIB, 4 * MIB, 8 * MIB + 1, 32 * MIB):
         d = tempfile.mkdtemp(dir=tmp)
         mk(os.path.join(d, "real", "payload.bin"), size)
